@@ -2,6 +2,7 @@
 mod absty;
 mod absval;
 mod corpus;
+mod fuzz;
 mod gen;
 mod hash;
 mod leb;
@@ -13,6 +14,9 @@ mod proj;
 mod sub;
 mod suite;
 mod util;
+
+#[global_allocator]
+static ALLOC: fuzz::Counting = fuzz::Counting;
 
 fn main() {
     util::install_panic_hook();
@@ -26,6 +30,7 @@ fn main() {
         "suite" => suite::run(&o),
         "msg" => msg::run(&o),
         "native" => native::run(&o),
+        "fuzz" => fuzz::run(&o),
         "principal" => principal::run(&o),
         m => { eprintln!("usage: unknown mode {m}"); std::process::exit(2); }
     }
